@@ -127,7 +127,14 @@ def marshalKind (kind spec : String) : Option (Out Bytes) :=
 
 def firstWord (s : String) : String := (s.splitOn " ").headD ""
 
+/-- a COSE_Sign value with an unset (nil) signature slot, `csn` in the notation: every method of
+    `*Signature` starts with a nil-receiver test and returns an error, so `SignMessage.MarshalCBOR`
+    fails (sign.go:67, 322-326).  The model's `SigV` has no nil inhabitant; the case is answered here. -/
+def hasNilSlot (kind spec : String) : Bool :=
+  kind = "sm" && ((spec.splitOn "[csn").length > 1 || (spec.splitOn ",csn").length > 1)
+
 def opEnc (kind spec : String) : M String :=
+  if hasNilSlot kind spec then some "err" else
   match marshalKind kind spec with
   | none => some "bad-op"
   | some (.ok b) =>
